@@ -59,6 +59,9 @@ BREAK3 = BREAK.replace("-r2-", "-r3-").replace(
 BENIGN2 = BENIGN.replace("-bn-", "-b2-").replace(
  "Use a different kind of refactoring for each of the four, chosen from things like:",
  "This is a second round: go for MORE INVASIVE restructurings than renames. Use a different kind for each of the four, chosen from things like: splitting one function into two or three helpers (possibly in another module, with an import); merging two small functions; moving a function or constant to another module and importing it back; replacing recursion by an explicit loop/stack or the reverse; replacing an if/elif dispatch by a table of functions or by polymorphism (a method per class) or the reverse; changing an internal data structure (list <-> tuple, dict <-> small class / namedtuple / dataclass) without changing results; replacing try/except by an explicit pre-check where both are exactly equivalent (or the reverse); turning a nested closure into a module-level function or a functools.partial; introducing a local cache only where it is provably safe (pure function of immutable arguments, cache local to one call); using walrus / match statements / enumerate / zip / itertools; reordering entries of a dict or set literal where order cannot matter; adding assertions that cannot fail, type annotations, docstrings or debug logging; also:")
+BREAK4 = BREAK.replace("-r2-", "-r4-").replace(
+ " 3. The three changes must sit in three DIFFERENT functions",
+ " 3. This is a fourth round; the tool already catches edits inside the anchored functions well. Choose the three changes from three DIFFERENT families: (a) a change OUTSIDE the files listed for the property - in a shared helper, base class, table, constant, default argument value, import, or module-level initialisation that the anchored code relies on - which breaks the property while the anchored functions stay textually unchanged; (b) a change of a SIBLING: one of several parallel implementations (one curve, one type class, one mode, one operation kind, one instruction of a family) made to disagree with the others in a way that only shows for that sibling; (c) a refactoring that LOOKS behaviour-preserving (a helper extracted, a loop turned into a comprehension, a condition simplified by a wrong algebraic identity, De Morgan applied wrongly, `<=` vs `<` after reordering operands, a default changed from None to a falsy value) but changes the result for some input. The three changes must sit in three DIFFERENT functions")
 kind, pid = sys.argv[1], sys.argv[2]
-wt = {'break': f'/tmp/r2_{pid}', 'benign': f'/tmp/bn_{pid}', 'break3': f'/tmp/r3_{pid}', 'benign2': f'/tmp/b2_{pid}'}[kind]
-print({'break': BREAK, 'benign': BENIGN, 'break3': BREAK3, 'benign2': BENIGN2}[kind].format(wt=wt, pid=pid, prop=prop_text(props[pid])))
+wt = {'break': f'/tmp/r2_{pid}', 'benign': f'/tmp/bn_{pid}', 'break3': f'/tmp/r3_{pid}', 'break4': f'/tmp/r4_{pid}', 'benign2': f'/tmp/b2_{pid}'}[kind]
+print({'break': BREAK, 'benign': BENIGN, 'break3': BREAK3, 'break4': BREAK4, 'benign2': BENIGN2}[kind].format(wt=wt, pid=pid, prop=prop_text(props[pid])))
